@@ -191,7 +191,7 @@ def run(c):
                 names=sorted(states[0]["names"]), init_bal=scal["InitBal"], delay=scal["StakingDelay"], defaults=states[0]["param"])
     if sorted(gcfg["cands"]) != sorted(states[0]["tally"]["BP"]):
         raise vlib.Infra("candidate table of checks/c15.py does not match the generation configuration")
-    inp = dict(cfg=gcfg, ops=ops, states=states, init=init, paths=paths, rcfg=RCFG,
+    inp = dict(cfg=gcfg, ops=ops, states=states, init=init, max_h=max(st["h"] for st in states), paths=paths, rcfg=RCFG,
                random=dict(histories=16 if quick else 240, length=120 if quick else 200), shards=12)
     inpath = os.path.join(c.work, "gov_in.json")
     json.dump(inp, open(inpath, "w"))
